@@ -282,7 +282,7 @@ package ct
 //@ ensures [caller-view] result3 == nil ==> validKey(result0)
 
 //@ func (*SHA256Hash).FromBase64String
-//@ props C19
+//@ props C04 C12 C19
 //@ arith int
 //@ site DecodeString#1 as dec
 //@ requires s != nil
@@ -292,7 +292,7 @@ package ct
 //@ at dec assert [decodes-the-given-text] dec.s == b64
 
 //@ func (SHA256Hash).Base64String
-//@ props C19
+//@ props C04 C12 C19
 //@ pure
 
 // Wire layouts of RFC 6962 section 3 (presentation language of RFC 5246 section 4), transcribed
